@@ -25,6 +25,12 @@ AREA = os.path.join(SPEC, "typing")
 ALL_SLOTS = ["start", "size", "len", "cond", "enumv", "virt", "sreq", "freq", "amax", "asig",
              "abo", "atxt", "arg1", "arg2"]
 ALL_LEAVES = [l["name"] for l in typing_render.SKELETON_LEAVES]
+CATALOGUE_RULES = ["arith_operand", "unary_operand", "ord_bool", "ord_enum", "ord_operand", "eq_mixed_enum",
+                   "eq_operand", "logic_operand", "choice_cond", "choice_branches", "max_arity", "max_operand",
+                   "present_arity", "present_nonfield", "bound_arity", "bound_operand", "offset_not_integer",
+                   "size_not_integer", "array_length_not_integer", "enum_value_not_integer",
+                   "condition_not_boolean", "requires_not_boolean", "attribute_value_kind", "param_arity",
+                   "param_type", "param_enum_mismatch"]
 
 TIERS = {
     "quick": dict(
@@ -33,8 +39,8 @@ TIERS = {
         mc_timeout=900,
     ),
     "thorough": dict(
-        mc=dict(MaxDepth=1, MaxActive=1, leaves=ALL_LEAVES, ints=[0, 1, 2, 3, 8]),
-        sim=dict(procs=12, walks=500, depth=3, active=3, max_viol=60000),
+        mc=dict(MaxDepth=1, MaxActive=1, leaves=["a", "b", "f", "e", "h", "s", "vi", "vb", "p", "q"], ints=[1, 2, 8]),
+        sim=dict(procs=12, walks=300, depth=3, active=3, max_viol=30000),
         mc_timeout=3000,
     ),
 }
@@ -147,7 +153,7 @@ def _replay(cases):
             "obs": {"acc": r["acc"], "exc": r["exc"],
                     "errs": [{"l1": e["l1"], "l2": e["l2"], "syn": e["syn"], "main": e["main"]} for e in r["errs"]]},
             "bacc": rb["acc"],
-            "_text": texts[me[0]], "_errs": r["errs"], "_exc_text": r["exc_text"],
+            "_text": texts[me[0]], "_errs": r["errs"], "_exc_text": r["exc_text"], "_base_text": texts[base[0]],
         })
     return records
 
@@ -201,7 +207,8 @@ def _report(chk, records, verdicts):
                                           "; ".join("%d:%d %s" % (e["l1"], e["c1"], e["msg"]) for e in r["_errs"][:3])),
         }.get(v["clause"], v["clause"])
         chk.violation(key, "%s [%s]\n%s\n--- m.emb ---\n%s" % (key, r["kind"], what, r["_text"]),
-                      {"case": {k: x for k, x in r.items() if not k.startswith("_")}, "emb": r["_text"]})
+                      {"case": {k: x for k, x in r.items() if not k.startswith("_")}, "emb": r["_text"],
+                       "base_emb": r["_base_text"]})
 
 
 def _selftest(chk, sc, records):
@@ -286,6 +293,8 @@ def run(chk, only=None):
                 if c["kind"] == "viol":
                     chk.note_nontrivial("%s@%s" % (c["viol"]["rule"], c["viol"]["slot"]))
             records += recs
+            seen_rules = {c["viol"]["rule"] for c in cat if c["kind"] == "viol"}
+            chk.extra["catalogue_rules_never_exercised"] = [r for r in CATALOGUE_RULES if r not in seen_rules]
             chk.exhaustive = True if parts == {"catalogue"} else None
         if simcases:
             cases = simcases
@@ -308,3 +317,28 @@ def run(chk, only=None):
         if "selftest" in parts and records:
             timed("selftest", _selftest, chk, sc, records)
         chk.evaluations = chk.traces
+
+
+def _observe(rec, emb, base_emb):
+    """Re-run the real compiler on a stored case (replay)."""
+    r, rb = typing_pool.compile_all([(0, {"m.emb": emb}, "m.emb"), (1, {"m.emb": base_emb}, "m.emb")])
+    rec = dict(rec)
+    rec["obs"] = {"acc": r["acc"], "exc": r["exc"],
+                  "errs": [{"l1": e["l1"], "l2": e["l2"], "syn": e["syn"], "main": e["main"]} for e in r["errs"]]}
+    rec["bacc"] = rb["acc"]
+    rec.update({"_text": emb, "_errs": r["errs"], "_exc_text": r["exc_text"], "_base_text": base_emb})
+    return rec
+
+
+def replay(chk, path):
+    """Re-decide one stored violation against the repo's current working tree."""
+    with open(path) as f:
+        stored = json.load(f)
+    payload = stored["case"]
+    rec = _observe(payload["case"], payload["emb"], payload.get("base_emb", payload["emb"]))
+    rec["tid"] = 0
+    with Scratch("c13r") as sc:
+        verdicts, total, _ = _decide(chk, sc, [rec], "replay", nshards=1)
+        _report(chk, [rec], verdicts)
+        chk.traces = chk.evaluations = total
+        chk.rule = "replay of %s" % stored.get("key")
